@@ -3,6 +3,8 @@
 package req
 
 import (
+	"bytes"
+	"compress/gzip"
 	"context"
 	"encoding/json"
 	"encoding/xml"
@@ -109,6 +111,12 @@ type c18Scenario struct {
 	unbounded bool
 	// per attempt: the request's context is cancelled when the wait before the next attempt begins
 	ctxDone []bool
+	// loopback lane only — how the origin frames the body (content presence as the wire shows it):
+	// 0 = Content-Length (0 for an empty body), 1 = chunked (headers flushed first: an empty body is a
+	// lone last-chunk), 2 = gzip-encoded when the client offers it (an empty body is an empty gzip
+	// stream); head = the request method is HEAD (no body whatever the script says)
+	framing int
+	head    bool
 }
 
 var c18ErrGetBody = errors.New("c18 GetBody failure")
@@ -394,6 +402,32 @@ const c18Challenge = `Digest realm="r", nonce="abc", qop="auth", algorithm=MD5`
 
 var c18Verbs = []string{"Get", "Post", "Put", "Patch", "Delete", "Options", "Head"}
 
+// c18VerbMethods enumerates, by reflection, EVERY method of *Request with the shape of a verb
+// helper — func(url string) (*Response, error) — and of a Must helper — func(url string) *Response:
+// a verb added to the library is exercised without touching the harness. (The package-level
+// wrappers cannot be enumerated; the regenerated fact Generated.C18Entry lists them.)
+var c18VerbMethods = func() (l struct{ verbs, musts, bodyVerbs []string }) {
+	t := reflect.TypeOf(&Request{})
+	respT, errT := reflect.TypeOf(&Response{}), reflect.TypeOf((*error)(nil)).Elem()
+	for i := 0; i < t.NumMethod(); i++ {
+		m := t.Method(i)
+		ft := m.Type
+		if ft.NumIn() != 2 || ft.In(1).Kind() != reflect.String || ft.IsVariadic() {
+			continue
+		}
+		switch {
+		case ft.NumOut() == 2 && ft.Out(0) == respT && ft.Out(1) == errT:
+			l.verbs = append(l.verbs, m.Name)
+			if m.Name == "Post" || m.Name == "Put" || m.Name == "Patch" {
+				l.bodyVerbs = append(l.bodyVerbs, m.Name)
+			}
+		case ft.NumOut() == 1 && ft.Out(0) == respT:
+			l.musts = append(l.musts, m.Name)
+		}
+	}
+	return
+}()
+
 func c18Run(sc *c18Scenario) *c18Obs {
 	o := &c18Obs{facts: map[string]*c18Http{}}
 	var c *Client // the client that runs the call (obtained below, directly or through Clone)
@@ -551,8 +585,23 @@ func c18Run(sc *c18Scenario) *c18Obs {
 			if h.ct == "" {
 				hd["Content-Type"] = nil // suppress the server's content sniffing
 			}
+			wire := h.wire()
+			noBody := r.Method == "HEAD" || h.status == 204 || h.status == 304
+			if sc.framing == 2 && !noBody && strings.Contains(r.Header.Get("Accept-Encoding"), "gzip") {
+				var zb bytes.Buffer
+				zw := gzip.NewWriter(&zb)
+				io.WriteString(zw, wire)
+				zw.Close()
+				hd.Set("Content-Encoding", "gzip")
+				wire = zb.String()
+			}
 			w.WriteHeader(h.status)
-			io.WriteString(w, h.wire())
+			if sc.framing == 1 {
+				if fl, ok := w.(http.Flusher); ok {
+					fl.Flush() // headers go out before the length is known: chunked
+				}
+			}
+			io.WriteString(w, wire)
 		}))
 		defer c18E2EHandlers.Delete(id)
 		sc.e2e = strings.TrimSuffix(sc.e2e, "/") + "/c/" + id
@@ -740,7 +789,15 @@ func c18Run(sc *c18Scenario) *c18Obs {
 
 	c = c18Build(sc, steps, o)
 	setupTransport()
-	req = c.R()
+	// the request: R(), NewRequest(), or the client-level verb builders (c.Post() = R() + method)
+	switch sc.verb % 5 {
+	case 2:
+		req = c.Post()
+	case 4:
+		req = c.NewRequest()
+	default:
+		req = c.R()
+	}
 	if reqLevelNoAutoRead {
 		req.DisableAutoReadResponse()
 	}
@@ -857,9 +914,27 @@ func c18Run(sc *c18Scenario) *c18Obs {
 		req.SetFileUpload(FileUpload{}) // a setter that records an error (missing param name)
 	}
 	method := "POST"
+	if sc.head {
+		method = "HEAD"
+	}
 	verb := c18Verbs[sc.verb%len(c18Verbs)]
+	if sc.head {
+		verb = "Head"
+	}
 	if needBody || sc.unreplayable {
 		verb = []string{"Post", "Put", "Patch"}[sc.verb%3]
+	}
+	// methods of *Request: every verb-shaped / Must-shaped one the library has (by reflection)
+	verbM, mustM := verb, "Must"+verb
+	if vm := c18VerbMethods; len(vm.verbs) > 0 && len(vm.musts) > 0 && sc.e2e == "" {
+		if needBody || sc.unreplayable {
+			if len(vm.bodyVerbs) > 0 {
+				verbM = vm.bodyVerbs[sc.verb%len(vm.bodyVerbs)]
+				mustM = "Must" + verbM
+			}
+		} else {
+			verbM, mustM = vm.verbs[sc.verb%len(vm.verbs)], vm.musts[sc.verb%len(vm.musts)]
+		}
 	}
 	// package-level helpers (req.Get, req.MustPost, …) delegate to the default client; usable
 	// when the scenario configures nothing at request level
@@ -890,18 +965,22 @@ func c18Run(sc *c18Scenario) *c18Obs {
 		switch sc.entry {
 		case 'd':
 			req.Method, req.RawURL = method, goodURL
-			o.resp = req.Do()
+			if sc.verb%2 == 0 && len(sc.ctxDone) == 0 {
+				o.resp = req.Do(context.Background()) // Do with a context argument
+			} else {
+				o.resp = req.Do()
+			}
 			if o.resp != nil {
 				o.err = o.resp.Err
 			}
 		case 's':
 			o.resp, o.err = req.Send(method, goodURL)
 		case 'v':
-			out := reflect.ValueOf(req).MethodByName(verb).Call([]reflect.Value{reflect.ValueOf(goodURL)})
+			out := reflect.ValueOf(req).MethodByName(verbM).Call([]reflect.Value{reflect.ValueOf(goodURL)})
 			o.resp, _ = out[0].Interface().(*Response)
 			o.err, _ = out[1].Interface().(error)
 		case 'm':
-			out := reflect.ValueOf(req).MethodByName("Must" + verb).Call([]reflect.Value{reflect.ValueOf(goodURL)})
+			out := reflect.ValueOf(req).MethodByName(mustM).Call([]reflect.Value{reflect.ValueOf(goodURL)})
 			o.resp, _ = out[0].Interface().(*Response)
 			if o.resp != nil {
 				o.err = o.resp.Err
@@ -1862,12 +1941,12 @@ func TestVerif_C18_e2e(t *testing.T) {
 	r := s.Rand()
 	hist := newC18Hist(s)
 	var scs []*c18Scenario
-	statuses := []int{200, 201, 202, 204, 206, 300, 304, 400, 401, 404, 409, 500, 503}
+	statuses := []int{200, 201, 202, 204, 205, 206, 300, 304, 400, 401, 404, 409, 500, 503}
 	gen := func(ck c18Checker, status int) *c18Http {
 		h := c18GenHTTP(r, ck, 75)
 		h.status, h.readOK = status, true
-		if status == 204 || status == 304 {
-			h.body = "" // a real origin cannot send one
+		if status == 204 || status == 304 || status == 205 {
+			h.body = "" // a real origin cannot (204, 304) or must not (205) send one
 		}
 		if status == 304 {
 			h.ct = "" // net/http's server suppresses Content-Type on 304
@@ -1880,7 +1959,7 @@ func TestVerif_C18_e2e(t *testing.T) {
 	}
 	for k := 0; k < verifh.N(500, 6000); k++ {
 		sc := &c18Scenario{entry: "dsvm"[r.Intn(4)], sT: r.Intn(4) != 0, eT: r.Intn(2) == 0, cE: r.Intn(2) == 0,
-			autoRead: r.Intn(4) != 0, hook: true, verb: r.Intn(5), checker: c18Checkers[0], e2e: srv.URL}
+			autoRead: r.Intn(4) != 0, hook: true, verb: r.Intn(5), checker: c18Checkers[0], e2e: srv.URL, framing: r.Intn(3), head: r.Intn(8) == 0}
 		if r.Intn(4) == 0 {
 			sc.checker = verifh.Pick(r, c18Checkers)
 		}
@@ -1927,12 +2006,40 @@ func TestVerif_C18_e2e(t *testing.T) {
 			}
 			sc.reqResp = append(sc.reqResp, st)
 		}
-		scs = append(scs, c18Finish(r, sc, 4, 3))
+		c18Finish(r, sc, 4, 3)
+		if sc.head { // no body ever arrives: the script's bodies are empty
+			sc.outFails = nil
+			for _, t := range sc.transport {
+				if t.h != nil {
+					t.h.body = ""
+					c18Facts(t.h, sc.checker)
+				}
+			}
+			for _, st := range sc.reqResp {
+				for _, a := range st {
+					if a.kind == "d" && a.re.h != nil {
+						a.re.h.body = ""
+						c18Facts(a.re.h, sc.checker)
+					}
+				}
+			}
+		}
+		hist.Count("framing=" + strconv.Itoa(sc.framing))
+		if sc.head {
+			hist.Count("head")
+		}
+		for _, t := range sc.transport {
+			if t.h != nil && t.h.body == "" && !sc.xform {
+				hist.Count("empty-body/framing=" + strconv.Itoa(sc.framing))
+			}
+		}
+		scs = append(scs, sc)
 	}
 	c18RunLane(t, s, hist, scs)
 	s.Finish()
 	hist.need(t, "bound=success", "bound=errorR", "bound=errorC", "out=err:unm", "out=err:s", "out=mustpanic", "out=ok", "digest-resent",
-		"final=S", "final=E", "final=U", "final=204", "attempts=2", "hook=1")
+		"final=S", "final=E", "final=U", "final=204", "attempts=2", "hook=1", "head", "empty-body/framing=0", "empty-body/framing=1",
+		"empty-body/framing=2", "save", "unbounded-retried", "xform-fails+err", "clonepath=1")
 }
 
 // c18Corpus: minimal witnesses (also proved as counter-examples of the as-found model in
